@@ -14,7 +14,7 @@ import glob
 from typing import List, Optional
 
 from ..model import Program, AnalysisError, dotted, FuncInfo, walk_local
-from ..report import RuleResult
+from ..report import RuleResult, guard
 from ..astutil import src, site, calls_in, call_name, is_super_call, kwarg
 
 EXPLANATION = (
@@ -538,4 +538,4 @@ def _shared_default(prog):
 
 
 def run(prog: Program, tier: str) -> List[RuleResult]:
-    return [js_tag(prog, tier), js_agree(prog), js_pure(prog), _shared_default(prog), js_leaf(prog)]
+    return [guard(lambda: js_tag(prog, tier)), guard(lambda: js_agree(prog)), guard(lambda: js_pure(prog)), guard(lambda: _shared_default(prog)), guard(lambda: js_leaf(prog))]
